@@ -810,14 +810,14 @@ func (ts *TermStore) liftArgs(args []*Term, f func(cs []*Term) *Term) (*Term, bo
 		if a.Op != OIte {
 			return nil, false
 		}
-		n := iteLeafCount(a, liftLimit)
-		if n > liftLimit {
+		n := iteLeafCount(a, 64)
+		if n > 64 {
 			return nil, false
 		}
 		anyIte = true
 		prod *= n
 	}
-	if !anyIte || prod > 64 {
+	if !anyIte || prod > 4096 {
 		return nil, false
 	}
 	// enumerate (guard, leaf-combination) pairs, group equal results: the result is an
